@@ -285,6 +285,7 @@ def analyse(ctx):
     from .common import helper_inline
     from . import rangeparse as RP
     never = set(RP.find_parser(ctx)[2])
+    never_parsers = frozenset(never)
     for n_, b_ in ctx.facts.bodies.items():
         rs = b_["locals"][0]["s"]
         if n_ in cond_fns(ctx):
@@ -340,6 +341,20 @@ def analyse(ctx):
             facts_m[name] = vals
         if any(len(v) > 1 for v in facts_m.values()) or (facts_m["GET"] == {True} and facts_m["HEAD"] == {True}):
             continue    # contradictory under the stated assumption: infeasible
+        # refinement ABS (proven on the parser each run): with no header to parse, the range parser answers one fixed variant
+        # ("ignore"); a path that hands it an absent header and continues with another answer is infeasible
+        absent = RP.absent_variants(ctx)
+        if absent:
+            infeasible = False
+            for e in o.events:
+                if e["k"] == "call" and e["callee"].get("res_path") in never_parsers and e["args"]:
+                    a0 = e["args"][0]
+                    gone = (is_agg(a0) and a0[3] == "None") or (isinstance(a0, tuple) and not is_agg(a0) and o.cons.variant_of(a0) == "None")
+                    rv = o.cons.variant_of(e.get("result")) if e.get("result") is not None else None
+                    if gone and rv is not None and rv not in absent:
+                        infeasible = True
+            if infeasible:
+                continue
         if facts_m["GET"] == {True}:
             r.method = "GET"
         elif facts_m["HEAD"] == {True}:
@@ -875,25 +890,70 @@ def c03_estimate(ctx, M):
     consts = set()
     okshape = True
     why = ""
+    early_caps = set()
     for o in outs:
         if o.kind != "return":
             continue
         v = o.value
-        var = o.cons.variant_of(v) if not is_agg(v) else v[3]
-        if var == "Some":
-            val = agg_get(v, "0") if is_agg(v) else None
-            # expect acc + c + (r.end - r.start)
-            z = Zone(_all_cons(o))
-            c = find_const_addend(val, acc)
-            if c is None:
-                okshape = False
-                why = "Some(%s) is not acc + c + (end - start)" % short(val, 100)
+        cases = []      # (variant, value, stop-condition)
+        if isinstance(v, tuple) and v and v[0] == "optif":
+            # Some(sum) while a condition holds, None otherwise (e.g. `.filter(|&a| a < len)`: stop adding once the sum has
+            # reached the bound - sound for the decision because the sum never decreases)
+            cases = [("Some", v[2], None), ("None", None, v)]
+        else:
+            var = o.cons.variant_of(v) if not is_agg(v) else v[3]
+            cases = [(var, agg_get(v, "0") if is_agg(v) and var == "Some" else None, None)]
+        for var, val, stop in cases:
+            if var == "Some":
+                # expect acc + c + (r.end - r.start)
+                c = find_const_addend(val, acc)
+                if c is None:
+                    okshape = False
+                    why = "Some(%s) is not acc + c + (end - start)" % short(val, 100)
+                else:
+                    consts.add(c)
+            elif var == "None":
+                # giving up is justified by an overflowing addition, or by the sum having reached a bound (which must be the
+                # entity length, checked at the call site below)
+                ovf = any(k == "eq" and vv == 1 and isinstance(t_, tuple) and t_[0] == "ovf" and t_[1] == "Add" for k, t_, vv in o.cons.log)
+                if stop is not None:
+                    cnd = stop[1]
+                    if isinstance(cnd, tuple) and cnd[0] == "binop" and cnd[1] in ("Lt", "Le") and cnd[2] == stop[2] and find_const_addend(cnd[2], acc) is not None:
+                        early_caps.add((cnd[1], cnd[3]))
+                    else:
+                        okshape = False
+                        why = "the fold stops early on a condition that is not `sum < bound`: %s" % short(cnd, 100)
+                elif not ovf:
+                    okshape = False
+                    why = "the fold gives up (None) for a reason other than an overflowing addition"
             else:
-                consts.add(c)
+                okshape = False
+                why = "UNRECOGNISED fold result %s" % short(v, 80)
     if not okshape or len(consts) != 1:
         ctx.violation("C03.R5", "C03.R5|estimate-shape", "UNRECOGNISED multipart estimate: %s" % (why or "constants %r" % sorted(consts)), where=F.loc(ctx.facts.bodies[cname]["span"]))
         return
     c = next(iter(consts))
+    # an early stop must be against the entity length, with the same relation as the final comparison (checked below)
+    for op_, cap in sorted(early_caps, key=str):
+        okcap = False
+        if isinstance(cap, tuple) and cap[0] == "deref" and isinstance(cap[1], tuple) and cap[1][0] == "field":
+            cname_ = cap[1][2]
+            for r in ok_rows(M):
+                for e in r.o.events:
+                    if e["k"] == "call" and (e["callee"].get("path") or "").endswith("Iterator::try_fold") and len(e["args"]) == 3 and is_agg(e["args"][2]) \
+                            and e["args"][2][2] == cname:
+                        cv = dict(e["args"][2][4]).get(cname_)
+                        if isinstance(cv, tuple) and cv and cv[0] == "ref":
+                            cv = r.o.state.env.get(cv[1]) if not cv[2] else None
+                        okcap = cv is not None and cv == entity_len_term(r)
+                        if not okcap:
+                            break
+                if okcap:
+                    break
+        if not okcap:
+            ctx.violation("C03.R5", "C03.R5|estimate-early-stop", "the estimate fold stops early against %s, which is not the entity length" % short(cap, 60),
+                          where=F.loc(ctx.facts.bodies[cname]["span"]))
+            return
     # the comparison: rows where the estimate is compared with L
     rel = None
     for r in ok_rows(M):
@@ -911,6 +971,12 @@ def c03_estimate(ctx, M):
                 mp = r.body["kind"] == "multipart" or any(h[0] == "CONTENT_TYPE" for h in r.headers) or r.status == 413
                 if rel in ("Lt", "Le") and bool(val) != mp:
                     ctx.violation("C03.R5", "C03.R5|estimate-branch", "multipart is chosen on the wrong side of the estimate comparison", where=row_where(r))
+    # stopping when !(sum OP' len) is sound for the final test `sum OP len` iff it implies that no later (larger) sum passes it:
+    # OP = `<` allows OP' in {<, <=}; OP = `<=` allows only `<=`
+    if any(not (op_ == rel or (rel == "Lt" and op_ == "Le")) for op_, _ in early_caps):
+        ctx.violation("C03.R5", "C03.R5|estimate-early-stop", "the estimate fold stops early on `sum %s len`, which can cut off a sum the final comparison (%s) would accept" %
+                      (sorted(op_ for op_, _ in early_caps), rel), where=F.loc(ctx.facts.bodies[cname]["span"]))
+        return
     good = (rel == "Lt" and 0 <= c <= 160) or (rel == "Le" and 1 <= c <= 160)
     if good:
         ctx.ok("C03.R5", "multipart iff sum(%d + |r|) %s len" % (c, "<" if rel == "Lt" else "<="), detail={"constant": c, "relation": rel})
@@ -1161,6 +1227,11 @@ def c05_gate(ctx, M):
         is_none = is_agg(arg) and arg[3] == "None"
         is_range = isinstance(arg, tuple) and arg[0] == "call" and arg[1].endswith("HeaderMap::<T>::get") and \
             isinstance(arg[2][1], tuple) and arg[2][1] == ("named", HDR + "RANGE")
+        if is_range and r.o.cons.variant_of(arg) == "None":
+            # the request has no Range header on this path: handing the (absent) header to the parser and handing it None are
+            # the same thing, so the gate has nothing to decide here
+            classes["Range header absent -> nothing to keep or drop"] = classes.get("Range header absent -> nothing to keep or drop", 0) + 1
+            continue
         if not (is_none or is_range):
             ctx.violation("C05.R3", "C05.R3|parser-arg", "the range parser's header argument is neither the request's Range header nor None: %s" % short(arg, 100), where=where(pe))
             continue
